@@ -32,7 +32,7 @@ def nl_break(k):
     return math.degrees(math.acos(math.sqrt(a / b)))
 
 
-def run(prog, rep, tier):
+def run(prog, rep, tier, only=None):
     rep.explanation = ('nl() is only comparisons with constants: the abstract interpreter enumerates its return paths and the branch facts '
                        'of each give a (band -> NL) decision list, compared with the NL formula. airborne_position is analysed with '
                        'arbitrary reports (17-bit CPR fields): parity facts and the latitude interval are read at the Some(..) sites.')
@@ -115,6 +115,8 @@ def run(prog, rep, tier):
                       'upper limit of NL = %d is %.8f, the formula gives %.10f (off by %.3g)' % (k, hi, want, err),
                       sample={'NL': k, 'upper_limit': hi, 'formula': round(want, 10)} if k in (59, 30, 3) and not sign else None)
     rep.check(nanret == [1] or not nanret, 'N1-nl-table', 'nl#nan', site, 'paths without a sign fact (NaN) return %s' % nanret, nontrivial=False)
+    if only == 'N1':
+        return
     # ---- N2 / N3 / N4
     E = runner.make_engine(prog, K=16)
     apt = util.adt_type(prog, 'decode::bds::bds05::AirbornePosition')
